@@ -419,3 +419,14 @@ def run(ctx):
         "samples": acc.samples[:3],
         "exhaustive": True,
     }
+
+
+def replay(ctx, data):
+    d = data["first"]
+    acc = par.Acc()
+    tree, base = build_tree(tuple(d["tree"]))
+    try:
+        check_case(tree, tuple(d["tree"]), d["format"], d["root"], d["subdir"], d["per_file_timestamps"], acc)
+    finally:
+        shutil.rmtree(base, ignore_errors=True)
+    return not any(sig == data["signature"] for sig, _ in acc.violations)
